@@ -187,11 +187,20 @@ def r_getvar(model, rep):
            msg="" if af else "the append is not dominated by the arch filter admitting 'src' "
                              "(arch not in variant.arches + ['src'] -> skip)")
     # filters must only skip when a filter was given:  `types and ...`, `arch and ...`
-    for t in neg:
-        if has_type_filter(t) or has_arch_filter(t):
-            if not (t[0] == "boolop" and t[1] == "and" and len(t[2]) == 2 and t[2][0][0] in ("param", "phi", "boolop")):
-                rep.ob("R-GETVAR", "get_variants:filter-shape", False, site=cx.site(ap.lineno),
-                       msg="filter %s is not of the form '<given> and <mismatch>'" % T.show(t))
+    def conjunctions(t):
+        """the filter conjunctions inside a skip condition: the condition itself or the operands of a top-level 'or'"""
+        if t[0] == "boolop" and t[1] == "or":
+            out = []
+            for x in t[2]:
+                out.extend(conjunctions(x))
+            return out
+        return [t]
+    for t0 in neg:
+        for t in conjunctions(t0):
+            if has_type_filter(t) or has_arch_filter(t):
+                if not (t[0] == "boolop" and t[1] == "and" and len(t[2]) == 2 and t[2][0][0] in ("param", "phi", "boolop")):
+                    rep.ob("R-GETVAR", "get_variants:filter-shape", False, site=cx.site(ap.lineno),
+                           msg="filter %s is not of the form '<given> and <mismatch>'" % T.show(t))
     # (ii) recursion forwards every filter parameter
     rec = [ev for ev in cx.events if ev.kind == "call" and ev.value[1] == ("attr", elem, "get_variants")]
     if not rec:
